@@ -23,6 +23,7 @@ def load_event(s):
     e.failure = bool(data['failure'])
     e.notify = bool(data['notify'])
     e.channels = tuple(data['channels'])
+    hash(e.channels)  # TypeError for unhashable channels: they key the dispatcher's handler cache
 
     for k, v in dict(data['meta']).items():
         if k.startswith('__') or k in META_EXCLUDE:
